@@ -746,7 +746,15 @@ func (c *FnCtx) loopCore(st *State, ls *LoopSpec, ord int, node ast.Node, body *
 	guard func(*State) string, pre func(*State), post func(*State), ri *rangeInfo) {
 
 	lname := fmt.Sprintf("loop%d", ord)
-	specEnv := func(s *State) *Env { return c.specEnvAt(s, body.Lbrace) }
+	specEnv := func(s *State) *Env {
+		env := c.specEnvAt(s, body.Lbrace)
+		if ri != nil {
+			// `range_idx` names the hidden iteration counter of this range loop in its invariants
+			iv := s.vars[ri.idx]
+			env.bound = map[string]Val{"range_idx": {T: iv.T, Typ: untypedInt}}
+		}
+		return env
+	}
 
 	// 1. invariants hold on entry
 	if ls != nil {
@@ -791,6 +799,13 @@ func (c *FnCtx) loopCore(st *State, ls *LoopSpec, ord int, node ast.Node, body *
 		dec0 = c.eval(specEnv(bodySt), ls.Decreases.Expr).T
 	}
 	pre(bodySt)
+	if ls != nil {
+		for _, h := range ls.Hints {
+			g := c.eval(specEnv(bodySt), h.Expr)
+			c.oblige(bodySt, "hint", lname+":"+h.Label, g.T, h.Src, h.Try, node)
+			c.assume(bodySt, g.T)
+		}
+	}
 	lf := &loopFrame{label: label}
 	c.loops = append(c.loops, lf)
 	c.execBlock(bodySt, body.List)
